@@ -468,9 +468,66 @@ func checkInflightProtocol(c *Ctx, rule string) {
 		c.anchorMissing(rule, "Importer.Commit / Importer.inflightCommit")
 		return
 	}
-	isRecv := func(in ssa.Instruction) bool {
+	rawRecv := func(in ssa.Instruction) bool {
 		u, ok := in.(*ssa.UnOp)
 		return ok && u.Op == token.ARROW && isLoadOfField(fIn)(u.X)
+	}
+	noneEdgeOf := func(from *ssa.BasicBlock, si int) bool {
+		iff := ifOf(from)
+		if iff == nil {
+			return false
+		}
+		v, nn, ok := nilCond(iff.Cond)
+		return ok && isLoadOfField(fIn)(stripTrivial(v)) && si == 1-nn
+	}
+	// helpers that await the slot on every path and hand the received error back as their result
+	awaiters := map[*ssa.Function]bool{}
+	for _, fn := range l.SrcFuncs {
+		if l.pkgPathOf(fn) != l.ModPath || fn == impCommit || errResultIndex(fn.Signature) < 0 || fn.Signature.Results().Len() != 1 {
+			continue
+		}
+		has := false
+		allInstrs(fn, func(in ssa.Instruction) {
+			if rawRecv(in) {
+				has = true
+			}
+		})
+		if !has {
+			continue
+		}
+		drained := mustStateE(fn, false, rawRecv, nil, noneEdgeOf)
+		ok := true
+		for _, r := range returnsOf(fn) {
+			if isRecoverReturn(r) {
+				continue
+			}
+			if !drained(r) {
+				ok = false
+			}
+			// the result is the received value (or nil on the nothing-in-flight edge)
+			v := stripTrivial(retVal(r, 0))
+			if !isNilConst(v) {
+				if u, isU := v.(*ssa.UnOp); !isU || !rawRecv(u) {
+					if _, isPhi := v.(*ssa.Phi); !isPhi {
+						ok = false
+					}
+				}
+			}
+		}
+		if ok {
+			awaiters[fn] = true
+		}
+	}
+	isRecv := func(in ssa.Instruction) bool {
+		if rawRecv(in) {
+			return true
+		}
+		if cc := callCommon(in); cc != nil {
+			if g := staticCallee(cc); g != nil && awaiters[g] {
+				return true
+			}
+		}
+		return false
 	}
 	// (a)
 	var ws *ssa.Call
@@ -537,7 +594,7 @@ func checkInflightProtocol(c *Ctx, rule string) {
 			continue
 		}
 		allInstrs(fn, func(in ssa.Instruction) {
-			if !isRecv(in) {
+			if !rawRecv(in) {
 				return
 			}
 			n++
